@@ -456,6 +456,13 @@ def build_discover(case):
     def make_seq(units):
         m = L["helpers"].DeviceInstanceTypeMapper()
         holder["m"] = m
+        # A bus-wide mapper is scanned again and again: instances it already knows - with a type that is no longer
+        # true, e.g. a unit was replaced - must end up with the type the unit reports NOW.  (Only fault-free cases and
+        # only addresses that are certainly scanned, so that nothing stale may legitimately survive.)
+        if case.get("preload", len(devices) % 2 == 1) and not case.get("fault"):
+            must_addrs, _ = selected_addresses(sel)
+            for (a, n), t in sorted(expected_mapping(devices, must_addrs).items()):
+                m.add_type(short_address=a, instance_number=n, instance_type=(t + 1 + n % 3) % 32)
         if sel[0] == "default":
             return m.autodiscover()
         return m.autodiscover(selector_arg(sel))
